@@ -490,6 +490,16 @@ func (e *e4Engine) open(in ssa.Instruction, key, detail string) {
 	full := lp + ": " + key
 	le, ok := e.ledger[full]
 	if !ok {
+		// a helper split out of a reviewed function (unknown to the baseline, called only from it) inherits that
+		// function's entries: the entry's machine-checked facts are evaluated where the construct now lives
+		if h := e.c.P.hostOfNewHelper(in.Parent()); h != nil {
+			alt := lp + ": " + strings.Replace(key, shortName(in.Parent())+": ", shortName(h)+": ", 1)
+			if cand, found := e.ledger[alt]; found {
+				le, ok, full = cand, true, alt
+			}
+		}
+	}
+	if !ok {
 		for k, cand := range e.ledger {
 			if cand.KeyPattern == "" {
 				continue
